@@ -145,28 +145,61 @@ def run(F, chk):
 
 
 def check_endian_bit(F, W1):
-    """the byte-order bit of htyp written by to_write is control-dependent on std_hdr.is_big_endian()"""
+    """the byte-order bit (0x02) of the htyp byte written by to_write is set exactly when std_hdr.is_big_endian():
+    every store into htyp that sets the bit is dominated by the true edge of an is_big_endian() test, and from that true
+    edge no path reaches a write sink without passing such a store."""
     b = F.get('adlt::dlt::DltStandardHeader::to_write')
     if b is None:
         return
     cfg = CFG(b)
     E = ExprBuilder(cfg)
-    sets = {}
+    BIT = 2
+    setters = []     # (block, guarded?)
+    n_stores = 0
     for blk in b.blocks:
         if blk.cleanup:
             continue
         for s in blk.stmts:
-            if s.k == 'assign' and s.place.is_local and b.name_of(s.place.l) == 'htyp' or (s.k == 'assign' and s.place.is_local and 'u8' == s.place.t and False):
-                v = hdrtab.fold(E.rvalue(s.rv))
-                if v is not None:
-                    for (c, truth, D) in guards.known(cfg, E, blk.i):
-                        if isinstance(c, tuple) and c[0] == 'call' and c[1].endswith('DltStandardHeader::is_big_endian') and truth in (True, False):
-                            sets[truth] = v
+            if not (s.k == 'assign' and s.place.is_local and b.name_of(s.place.l) == 'htyp'):
+                continue
+            n_stores += 1
+            e = E.rvalue(s.rv)
+            v = hdrtab.fold(e)
+            bits = None
+            if v is not None:
+                bits = v
+            elif isinstance(e, tuple) and e[0] == 'bin' and e[1] == 'BitOr':
+                k = hdrtab.fold(e[3]) if show(e[2]) == 'htyp' else (hdrtab.fold(e[2]) if show(e[3]) == 'htyp' else None)
+                bits = k
+            if bits is None:
+                W1.violation(('htyp-store-shape', b.path), 'store htyp = %s at %s is neither a constant nor htyp | constant: the byte-order bit cannot be tracked' % (show(e)[:60], b.loc(s.sp)), where=b.loc(s.sp))
+                continue
+            if bits & BIT:
+                g = any(isinstance(c, tuple) and c[0] == 'call' and c[1].endswith('DltStandardHeader::is_big_endian') and truth is True for (c, truth, D) in guards.known(cfg, E, blk.i))
+                setters.append((blk.i, g, b.loc(s.sp)))
     W1.sites += 2
-    if True in sets and False in sets and (sets[True] & 2) and not (sets[False] & 2) and (sets[True] & ~2) == sets[False]:
-        W1.ok(sample={'htyp_initial': {'big_endian': sets[True], 'little_endian': sets[False]}, 'byte_order_bit': 2})
-    else:
-        W1.violation(('endianness-bit', b.path), 'to_write does not derive the byte-order bit of htyp from std_hdr.is_big_endian() (initial htyp values: %s)' % sets, where=b.loc(None))
+    tests = []
+    for blk in b.blocks:
+        if blk.cleanup or blk.term.k != 'switch':
+            continue
+        c = E.switch_cond(blk)
+        if isinstance(c, tuple) and c[0] == 'call' and c[1].endswith('DltStandardHeader::is_big_endian') and [v for v, _ in blk.term.d['vals']] == [0]:
+            tests.append(blk)
+    sinks = [blk.i for blk in b.calls() if blk.term.callee.path.endswith('::write_all')]
+    unguarded = [x for x in setters if not x[1]]
+    if not setters or not tests or not sinks:
+        W1.violation(('endianness-bit', b.path), 'to_write does not derive the byte-order bit of htyp from std_hdr.is_big_endian() (bit-setting stores: %d, is_big_endian tests: %d)' % (len(setters), len(tests)), where=b.loc(None))
+        return
+    if unguarded:
+        W1.violation(('endianness-bit', b.path), 'to_write sets the byte-order bit of htyp at %s without a dominating is_big_endian() test' % unguarded[0][2], where=unguarded[0][2])
+        return
+    for t in tests:
+        true_t = t.term.d['otherwise']
+        r = cfg.reachable_from(true_t, avoid=set(x[0] for x in setters))
+        if true_t not in set(x[0] for x in setters) and any(sk in r for sk in sinks):
+            W1.violation(('endianness-bit', b.path), 'to_write: a big-endian message can reach a write sink without the byte-order bit of htyp having been set', where=b.loc(t.term.sp))
+            return
+    W1.ok(sample={'byte_order_bit': BIT, 'bit_setting_stores': [x[2] for x in setters], 'all_under': 'is_big_endian() == true', 'htyp_stores': n_stores})
 
 
 def check_time_split(F, W2):
